@@ -1787,7 +1787,10 @@ func (p *Parser) parseExpression(prec OpPrec) IExpr {
 		} else {
 			newExpr := &NewExpr{p.parseExpression(OpNew), nil}
 			if p.tt == OpenParenToken {
+				prevIn := p.in
+				p.in = true
 				args := p.parseArguments()
+				p.in = prevIn
 				if len(args.List) != 0 {
 					newExpr.Args = &args
 				}
@@ -2041,6 +2044,8 @@ func (p *Parser) parseExpressionSuffix(left IExpr, prec, precLeft OpPrec) IExpr 
 				return nil
 			}
 			p.next()
+			prevIn := p.in
+			p.in = true
 			if p.tt == OpenParenToken {
 				left = &CallExpr{left, p.parseArguments(), OpOpt, true}
 			} else if p.tt == OpenBracketToken {
@@ -2065,6 +2070,7 @@ func (p *Parser) parseExpressionSuffix(left IExpr, prec, precLeft OpPrec) IExpr 
 				p.fail("optional chaining expression", IdentifierToken, OpenParenToken, OpenBracketToken, TemplateToken)
 				return nil
 			}
+			p.in = prevIn
 			precLeft = OpOpt
 		case IncrToken:
 			if p.prevLT || OpUpdate < prec {
